@@ -318,7 +318,17 @@ class BaseWSGIServer(wasyncore.dispatcher):
                 self.logger.warning("server accept() threw an exception", exc_info=True)
             return
         addr = self.fix_addr(addr)
-        self.channel_class(self, conn, addr, self.adj, map=self._map)
+        try:
+            self.channel_class(self, conn, addr, self.adj, map=self._map)
+        except OSError:
+            # The remote may already have gone away: querying or changing the
+            # state of the new socket then fails.  This must only affect the
+            # new connection, never the listening socket.
+            if self.adj.log_socket_errors:
+                self.logger.warning(
+                    "server failed to set up an accepted connection", exc_info=True
+                )
+            conn.close()
 
     def run(self):
         try:
